@@ -76,6 +76,11 @@ def seedParamOk (rows : List (String × Bool × Bool × Bool)) : Bool :=
     | some (scope, rebound, inside) => scope && !rebound && inside
     | none => false
 
+/-- the callers: `CreateSamplingMask.__call__` derives the seed from the file name only, passes the same `shape` and
+`seed` to the mask request (`return_acs=False`) and the ACS request (`return_acs=True`), draws nothing itself;
+`integerize_seed` returns every int (0 included) unchanged -/
+def plumbingOk (rows : List (String × Bool)) : Bool := decide (rows.length = 5) && rows.all (·.2)
+
 /-! ## from a configured pair to the ACS specification -/
 
 /-- one (centre fraction, acceleration) pair; both are exact doubles `num / den`; `radii` holds, for the disc
